@@ -29,6 +29,9 @@ pub mod managed;
 #[cfg_attr(docsrs, doc(cfg(feature = "unmanaged")))]
 pub mod unmanaged;
 
+#[cfg(deadpool_verif)]
+mod verif_sync;
+
 pub use deadpool_runtime::{Runtime, SpawnBlockingError};
 
 /// The current pool status.
